@@ -11,7 +11,14 @@ checks = []
 for pid in ids:
     if pid not in PROPS:
         continue
-    t = MANIFEST_TEXT[pid]
+    t = dict(MANIFEST_TEXT[pid])
+    ties = [g for g in PROPS[pid].get("gens", []) if g.endswith("Flow") or g in ("Grammar", "Inventory", "Operators")]
+    if ties:
+        t["text"] = t["text"].rstrip() + (" Source ties re-decided by the kernel on every run (`decide +kernel` over facts REGENERATED from /repo): the functions this property is "
+                                           "anchored in are, leaf statement by leaf statement, the ones that were audited against the model (" + ", ".join(ties) +
+                                           "; own and shared tables, Props/Tie), and nothing was added to the anchored packages (declaration inventory).")
+        if "source ties" not in t["technique"]:
+            t["technique"] = t["technique"] + " + regenerated literal source ties (flow tables, declaration inventory)"
     checks.append({
         "property_id": pid,
         "quick_cmd": f"./check {pid} quick",
